@@ -125,6 +125,13 @@ func decode(dst ivg.Destination, p printer, m *ivg.Metadata, metadataOnly bool, 
 	for _, opt := range opts {
 		opt(m)
 	}
+	// User-given colors that are nonsensical as alpha-premultiplied colors are
+	// replaced by opaque black (and not re-interpreted as gradients).
+	for i := range m.Palette {
+		if !ivg.ValidAlphaPremulColor(m.Palette[i]) {
+			m.Palette[i] = color.RGBA{0x00, 0x00, 0x00, 0xff}
+		}
+	}
 	if metadataOnly {
 		return nil
 	}
